@@ -125,18 +125,237 @@ theorem write64Fast_bits (v : Nat) (buf : List UInt8) (pos j : Nat) (h1 : 1 ≤ 
     refine ⟨b0, by simp only [e0, ok_bind], by omega, ?_⟩
     rw [s0]
 
-/-! ### the three partial-byte writes, as facts about one byte (finite, `decide`) -/
+/-! ### the three partial-byte writes: mask facts about one byte (finite, `decide`), the rest is algebra -/
 
-/-- :160-161 partial head, the rest of the byte is filled: `b&bMask | byte(v>>(bitsLeft-byteBitsLeft))` -/
-theorem w_head_full : ∀ b : Fin 256, ∀ lo : Fin 8, ∀ x : Fin 128, 1 ≤ lo.val → x.val < 2 ^ (8 - lo.val) →
-    toBitsBE 8 ((b.val &&& (((((1 <<< lo.val) - 1) % 256) <<< (8 - lo.val)) % 256)) ||| (x.val % 256))
-      = (toBitsBE 8 b.val).take lo.val ++ toBitsBE (8 - lo.val) x.val := by
+/-- :160 `bMask := byte((1<<byteBitPos)-1) << (8 - byteBitPos)` keeps the `lo` high bits -/
+theorem f_mask_hi : ∀ b : Fin 256, ∀ lo : Fin 8,
+    b.val &&& (((((1 <<< lo.val) - 1) % 256) <<< (8 - lo.val)) % 256) = (b.val / 2 ^ (8 - lo.val)) * 2 ^ (8 - lo.val) := by
   decide +kernel
 
-/-- :151 partial tail at a byte boundary: `byte(v)<<extraBits | b&((1<<extraBits)-1)` -/
-theorem w_tail : ∀ b : Fin 256, ∀ k : Fin 8, ∀ v : Fin 256, 1 ≤ k.val →
-    toBitsBE 8 ((((v.val % 256) <<< (8 - k.val)) % 256) ||| (b.val &&& ((1 <<< (8 - k.val)) - 1)))
-      = toBitsBE k.val v.val ++ (toBitsBE 8 b.val).drop k.val := by
+/-- :167 `bMask := byte(((1<<byteBitPos)-1)<<(8-byteBitPos) | ((1 << extraBits) - 1))` keeps the `lo` high and `e` low bits -/
+theorem f_mask_hilo : ∀ b : Fin 256, ∀ lo : Fin 8, ∀ e : Fin 8, lo.val + e.val ≤ 8 →
+    b.val &&& (((((1 <<< lo.val) - 1) <<< (8 - lo.val)) ||| ((1 <<< e.val) - 1)) % 256)
+      = (b.val / 2 ^ (8 - lo.val)) * 2 ^ (8 - lo.val) + b.val % 2 ^ e.val := by
   decide +kernel
+
+/-- :151 / :168 `byte(v) << extraBits` -/
+theorem f_shl : ∀ v : Fin 256, ∀ e : Fin 8, ((v.val % 256) <<< e.val) % 256 = (v.val % 2 ^ (8 - e.val)) * 2 ^ e.val := by
+  decide +kernel
+
+/-- `a+b` bits of `h·2^b + l` (l < 2^b) are the `a` bits of h followed by the `b` bits of l -/
+theorem toBitsBE_concat (a b h l : Nat) (hl : l < 2 ^ b) :
+    toBitsBE (a + b) (h * 2 ^ b + l) = toBitsBE a h ++ toBitsBE b l := by
+  rw [toBitsBE_add]
+  congr 1
+  · congr 1
+    rw [Nat.mul_comm, Nat.mul_add_div (Nat.two_pow_pos _), Nat.div_eq_of_lt hl, Nat.add_zero]
+  · rw [← toBitsBE_mod b b _ (Nat.le_refl _), Nat.mul_comm, Nat.mul_add_mod, Nat.mod_eq_of_lt hl]
+
+theorem take_toBitsBE8 (b lo : Nat) (h : lo ≤ 8) : (toBitsBE 8 b).take lo = toBitsBE lo (b / 2 ^ (8 - lo)) := by
+  have := toBitsBE_add lo (8 - lo) b
+  rw [show lo + (8 - lo) = 8 by omega] at this
+  rw [this, List.take_left' (toBitsBE_length _ _)]
+
+theorem drop_toBitsBE8 (b j : Nat) (h : j ≤ 8) : (toBitsBE 8 b).drop j = toBitsBE (8 - j) b := by
+  have := toBitsBE_add j (8 - j) b
+  rw [show j + (8 - j) = 8 by omega] at this
+  rw [this, List.drop_left' (toBitsBE_length _ _)]
+
+/-- :160-161 partial head, rest of the byte filled -/
+theorem w_head_full (b lo x : Nat) (hb : b < 256) (h1 : 1 ≤ lo) (h8 : lo < 8) (hx : x < 2 ^ (8 - lo)) :
+    toBitsBE 8 ((b &&& (((((1 <<< lo) - 1) % 256) <<< (8 - lo)) % 256)) ||| (x % 256))
+      = (toBitsBE 8 b).take lo ++ toBitsBE (8 - lo) x := by
+  have hm := f_mask_hi ⟨b, hb⟩ ⟨lo, h8⟩
+  simp only at hm
+  have hx256 : x < 256 := by
+    have : 2 ^ (8 - lo) ≤ 2 ^ 8 := Nat.pow_le_pow_right (by omega) (by omega)
+    omega
+  rw [hm, Nat.mod_eq_of_lt hx256, or_add (8 - lo) _ _ hx (Nat.mul_mod_left _ _), take_toBitsBE8 _ _ (by omega)]
+  have := toBitsBE_concat lo (8 - lo) (b / 2 ^ (8 - lo)) x hx
+  rwa [show lo + (8 - lo) = 8 by omega] at this
+
+/-- :151 partial tail at a byte boundary -/
+theorem w_tail (b k v : Nat) (hb : b < 256) (h1 : 1 ≤ k) (h8 : k < 8) :
+    toBitsBE 8 ((((v % 256) <<< (8 - k)) % 256) ||| (b &&& ((1 <<< (8 - k)) - 1)))
+      = toBitsBE k v ++ (toBitsBE 8 b).drop k := by
+  have hs := f_shl ⟨v % 256, Nat.mod_lt _ (by omega)⟩ ⟨8 - k, by omega⟩
+  simp only [Nat.mod_mod] at hs
+  rw [hs, and_mask, show 8 - (8 - k) = k by omega,
+    or_add (8 - k) _ _ (Nat.mod_lt _ (Nat.two_pow_pos _)) (Nat.mul_mod_left _ _), drop_toBitsBE8 _ _ (by omega)]
+  have := toBitsBE_concat k (8 - k) (v % 256 % 2 ^ k) (b % 2 ^ (8 - k)) (Nat.mod_lt _ (Nat.two_pow_pos _))
+  rw [show k + (8 - k) = 8 by omega] at this
+  rw [this, toBitsBE_mod k k _ (Nat.le_refl _), toBitsBE_mod (8 - k) (8 - k) b (Nat.le_refl _)]
+  congr 1
+  have := toBitsBE_mod k 8 v (by omega)
+  simpa using this
+
+/-- :166-168 partial head that also ends inside the byte -/
+theorem w_head_short (b lo k v : Nat) (hb : b < 256) (h1 : 1 ≤ lo) (hk : 1 ≤ k) (h8 : lo + k < 8) (hv : v < 2 ^ k) :
+    toBitsBE 8 ((b &&& ((((((1 <<< lo) - 1) <<< (8 - lo)) ||| ((1 <<< (8 - lo - k)) - 1))) % 256))
+        ||| (((v % 256) <<< (8 - lo - k)) % 256))
+      = (toBitsBE 8 b).take lo ++ toBitsBE k v ++ (toBitsBE 8 b).drop (lo + k) := by
+  have hm := f_mask_hilo ⟨b, hb⟩ ⟨lo, by omega⟩ ⟨8 - lo - k, by omega⟩ (by simp only; omega)
+  simp only at hm
+  have hv256 : v < 256 := by
+    have : 2 ^ k ≤ 2 ^ 8 := Nat.pow_le_pow_right (by omega) (by omega)
+    omega
+  have hs := f_shl ⟨v, hv256⟩ ⟨8 - lo - k, by omega⟩
+  simp only at hs
+  have hvk : v % 2 ^ (8 - (8 - lo - k)) = v := by
+    apply Nat.mod_eq_of_lt
+    have : 2 ^ k ≤ 2 ^ (8 - (8 - lo - k)) := Nat.pow_le_pow_right (by omega) (by omega)
+    omega
+  rw [hm, hs, hvk]
+  -- (H·P + L) ||| V = H·P + (V + L)
+  have hL : b % 2 ^ (8 - lo - k) < 2 ^ (8 - lo - k) := Nat.mod_lt _ (Nat.two_pow_pos _)
+  have hP : 2 ^ (8 - lo) = 2 ^ k * 2 ^ (8 - lo - k) := by rw [← Nat.pow_add]; congr 1; omega
+  have hVL : v * 2 ^ (8 - lo - k) + b % 2 ^ (8 - lo - k) < 2 ^ (8 - lo) := by
+    rw [hP]
+    have := acc_bound v (b % 2 ^ (8 - lo - k)) (2 ^ k) (8 - lo - k) hv hL
+    exact this
+  have hLP : b % 2 ^ (8 - lo - k) < 2 ^ (8 - lo) := by omega
+  rw [← or_add (8 - lo) _ _ hLP (Nat.mul_mod_left _ _), Nat.or_assoc,
+    Nat.or_comm (b % 2 ^ (8 - lo - k)), or_add (8 - lo - k) _ _ hL (Nat.mul_mod_left _ _),
+    or_add (8 - lo) _ _ hVL (Nat.mul_mod_left _ _)]
+  have c1 := toBitsBE_concat lo (8 - lo) (b / 2 ^ (8 - lo)) _ hVL
+  rw [show lo + (8 - lo) = 8 by omega] at c1
+  have c2 := toBitsBE_concat k (8 - lo - k) v _ hL
+  rw [show k + (8 - lo - k) = 8 - lo by omega] at c2
+  rw [c1, c2, take_toBitsBE8 _ _ (by omega), drop_toBitsBE8 _ _ (by omega),
+    toBitsBE_mod (8 - lo - k) (8 - lo - k) b (Nat.le_refl _), show 8 - (lo + k) = 8 - lo - k by omega,
+    List.append_assoc]
+
+theorem splice_inner (P bb Z X : Bits) (lo k : Nat) (hX : X.length = k) (hbb : lo + k ≤ bb.length) :
+    splice (P ++ bb ++ Z) P.length (bb.take lo ++ X ++ bb.drop (lo + k)) = splice (P ++ bb ++ Z) (P.length + lo) X := by
+  have hnew : (bb.take lo ++ X ++ bb.drop (lo + k)).length = bb.length := by simp; omega
+  simp only [splice, hnew, hX]
+  have t1 : List.take P.length (P ++ bb ++ Z) = P := by
+    rw [List.append_assoc, List.take_left' rfl]
+  have d1 : List.drop (P.length + bb.length) (P ++ bb ++ Z) = Z := by
+    rw [← List.length_append, List.drop_left' rfl]
+  have t2 : List.take (P.length + lo) (P ++ bb ++ Z) = P ++ bb.take lo := by
+    rw [List.append_assoc, List.take_append, List.take_of_length_le (by omega), Nat.add_sub_cancel_left,
+      List.take_append_of_le_length (by omega)]
+  have d2 : List.drop (P.length + lo + k) (P ++ bb ++ Z) = bb.drop (lo + k) ++ Z := by
+    rw [List.append_assoc, Nat.add_assoc, List.drop_append, List.drop_eq_nil_of_le (by omega), List.nil_append,
+      Nat.add_sub_cancel_left, List.drop_append_of_le_length (by omega)]
+  rw [t1, d1, t2, d2]; simp only [List.append_assoc]
+
+theorem bits_decomp (buf : List UInt8) (i : Nat) (hi : i < buf.length) :
+    bytesToBits buf = (bytesToBits buf).take (8 * i) ++ byteToBits buf[i] ++ (bytesToBits buf).drop (8 * i + 8) := by
+  have hd : (bytesToBits buf).drop (8 * i) = byteToBits buf[i] ++ bytesToBits (buf.drop (i + 1)) := by
+    rw [← bytesToBits_drop, List.drop_eq_getElem_cons hi, bytesToBits_cons]
+  have h2 : (bytesToBits buf).drop (8 * i + 8) = bytesToBits (buf.drop (i + 1)) := by
+    rw [bytesToBits_drop, show 8 * (i + 1) = 8 * i + 8 by omega]
+  rw [h2, List.append_assoc, ← hd, List.take_append_drop]
+
+/-- buf[i] = newv where the bits of newv are those of the old byte with bits [lo, lo+k) replaced by X -/
+theorem set_byte_bits (buf : List UInt8) (i newv lo k : Nat) (X : Bits) (hi : i < buf.length) (hX : X.length = k)
+    (hlk : lo + k ≤ 8)
+    (hnew : toBitsBE 8 newv = (toBitsBE 8 buf[i].toNat).take lo ++ X ++ (toBitsBE 8 buf[i].toNat).drop (lo + k)) :
+    ∃ buf', setIdx buf i newv = ok buf' ∧ buf'.length = buf.length ∧
+      bytesToBits buf' = splice (bytesToBits buf) (8 * i + lo) X := by
+  obtain ⟨buf', h1, h2, h3⟩ := setIdx_bits buf i newv hi
+  refine ⟨buf', h1, h2, ?_⟩
+  rw [h3, hnew]
+  have hdec := bits_decomp buf i hi
+  have hPl : ((bytesToBits buf).take (8 * i)).length = 8 * i := by
+    rw [List.length_take, bytesToBits_length]; omega
+  have := splice_inner ((bytesToBits buf).take (8 * i)) (byteToBits buf[i]) ((bytesToBits buf).drop (8 * i + 8)) X lo k hX
+    (by rw [byteToBits_length]; exact hlk)
+  rw [← hdec, hPl] at this
+  exact this
+
+theorem toBitsBE_split (n k v : Nat) (hk : k ≤ n) :
+    toBitsBE n v = toBitsBE k (v / 2 ^ (n - k)) ++ toBitsBE (n - k) v := by
+  have := toBitsBE_add k (n - k) v
+  rwa [show k + (n - k) = n by omega] at this
+
+/-- loop invariant of Write64: the remaining `bitsLeft` low bits of v are written at bitPos, nothing else changes.
+    At an unaligned position (only the first iteration) v must fit bitsLeft bits — Write64 does not mask v. -/
+theorem write64Loop_spec (v : Nat) : ∀ (fuel : Nat) (buf : List UInt8) (bitPos bitsLeft : Nat),
+    bitsLeft < fuel → bitPos + bitsLeft ≤ 8 * buf.length → bitsLeft ≤ 64 → (bitPos % 8 ≠ 0 → v < 2 ^ bitsLeft) →
+    ∃ buf', write64Loop v fuel buf bitPos bitsLeft = ok buf' ∧ buf'.length = buf.length ∧
+      bytesToBits buf' = splice (bytesToBits buf) bitPos (toBitsBE bitsLeft v) := by
+  intro fuel
+  induction fuel with
+  | zero => intro buf bitPos bitsLeft h; omega
+  | succ fuel ih =>
+    intro buf bitPos bitsLeft hf hr h64 hv
+    unfold write64Loop
+    by_cases h0 : bitsLeft = 0
+    · subst h0; exact ⟨buf, by simp, rfl, by simp [toBitsBE, splice_nil]⟩
+    · simp only [h0, if_false, and7, shr3]
+      by_cases hfast : bitPos % 8 = 0 ∧ bitsLeft % 8 = 0
+      · simp only [hfast, and_self, if_true]
+        have hb : ¬ (bitPos / 8 + bitsLeft / 8 > buf.length) := by omega
+        simp only [hb, if_false]
+        obtain ⟨buf', h1, h2, h3⟩ := write64Fast_bits v buf (bitPos / 8) (bitsLeft / 8) (by omega) (by omega) (by omega)
+        refine ⟨buf', h1, h2, ?_⟩
+        rw [h3, show 8 * (bitPos / 8) = bitPos by omega, show 8 * (bitsLeft / 8) = bitsLeft by omega]
+      · simp only [hfast, if_false]
+        have hi : bitPos / 8 < buf.length := by omega
+        simp only [List.getElem?_eq_getElem hi]
+        have hbyte := buf[bitPos / 8].toNat_lt
+        have hlo : bitPos = 8 * (bitPos / 8) + bitPos % 8 := by omega
+        by_cases hal : bitPos % 8 = 0
+        · simp only [hal, if_true]
+          by_cases h8 : bitsLeft ≥ 8
+          · simp only [h8, if_true]
+            obtain ⟨b1, e1, l1, s1⟩ := setIdx_bits buf (bitPos / 8) (v >>> (bitsLeft - 8)) hi
+            obtain ⟨b2, e2, l2, s2⟩ := ih b1 (bitPos + 8) (bitsLeft - 8) (by omega) (by omega) (by omega) (by omega)
+            refine ⟨b2, by simp only [e1, ok_bind, e2], by omega, ?_⟩
+            rw [s2, s1, show 8 * (bitPos / 8) = bitPos by omega,
+              show bitPos + 8 = bitPos + (toBitsBE 8 (v >>> (bitsLeft - 8))).length by rw [toBitsBE_length],
+              splice_splice _ _ _ _ (by simp only [toBitsBE_length, bytesToBits_length]; omega),
+              Nat.shiftRight_eq_div_pow, ← toBitsBE_split bitsLeft 8 v h8]
+          · simp only [h8, if_false]
+            have hw := w_tail buf[bitPos / 8].toNat bitsLeft v hbyte (by omega) (by omega)
+            obtain ⟨b1, e1, l1, s1⟩ := set_byte_bits buf (bitPos / 8) _ 0 bitsLeft (toBitsBE bitsLeft v) hi
+              (toBitsBE_length _ _) (by omega) (by rw [hw]; simp)
+            refine ⟨b1, e1, l1, ?_⟩
+            rw [s1, show 8 * (bitPos / 8) + 0 = bitPos by omega]
+        · simp only [hal, if_false]
+          have hbbl : (8 - bitPos % 8) % 8 = 8 - bitPos % 8 := by omega
+          simp only [hbbl]
+          have hvv := hv hal
+          by_cases hge : bitsLeft ≥ 8 - bitPos % 8
+          · simp only [hge, if_true]
+            have hx : v / 2 ^ (bitsLeft - (8 - bitPos % 8)) < 2 ^ (8 - bitPos % 8) := by
+              apply Nat.div_lt_of_lt_mul
+              rw [← Nat.pow_add, show bitsLeft - (8 - bitPos % 8) + (8 - bitPos % 8) = bitsLeft by omega]
+              exact hvv
+            have hw := w_head_full buf[bitPos / 8].toNat (bitPos % 8) _ hbyte (by omega) (by omega) hx
+            rw [← Nat.shiftRight_eq_div_pow] at hw
+            obtain ⟨b1, e1, l1, s1⟩ := set_byte_bits buf (bitPos / 8) _ (bitPos % 8) (8 - bitPos % 8)
+              (toBitsBE (8 - bitPos % 8) (v >>> (bitsLeft - (8 - bitPos % 8)))) hi
+              (toBitsBE_length _ _) (by omega)
+              (by rw [hw, show bitPos % 8 + (8 - bitPos % 8) = 8 by omega,
+                    List.drop_eq_nil_of_le (by rw [toBitsBE_length]; omega), List.append_nil])
+            obtain ⟨b2, e2, l2, s2⟩ := ih b1 (bitPos + (8 - bitPos % 8)) (bitsLeft - (8 - bitPos % 8))
+              (by omega) (by omega) (by omega) (by omega)
+            refine ⟨b2, by simp only [e1, ok_bind, e2], by omega, ?_⟩
+            rw [s2, s1, ← hlo,
+              show bitPos + (8 - bitPos % 8) = bitPos + (toBitsBE (8 - bitPos % 8) (v >>> (bitsLeft - (8 - bitPos % 8)))).length by
+                rw [toBitsBE_length],
+              splice_splice _ _ _ _ (by simp only [toBitsBE_length, bytesToBits_length]; omega),
+              Nat.shiftRight_eq_div_pow, ← toBitsBE_split bitsLeft (8 - bitPos % 8) v hge]
+          · simp only [hge, if_false]
+            have hw := w_head_short buf[bitPos / 8].toNat (bitPos % 8) bitsLeft v hbyte (by omega) (by omega) (by omega) hvv
+            obtain ⟨b1, e1, l1, s1⟩ := set_byte_bits buf (bitPos / 8) _ (bitPos % 8) bitsLeft (toBitsBE bitsLeft v) hi
+              (toBitsBE_length _ _) (by omega) hw
+            refine ⟨b1, e1, l1, ?_⟩
+            rw [s1, ← hlo]
+
+/-- C01 core: Write64 -/
+theorem write64_spec' (v n : Nat) (buf : List UInt8) (off : Nat) (h : off + n ≤ 8 * buf.length) (hn : n ≤ 64)
+    (hv : v < 2 ^ n) :
+    ∃ buf', write64 v n buf off = ok buf' ∧ buf'.length = buf.length ∧
+      bytesToBits buf' = (bytesToBits buf).take off ++ toBitsBE n v ++ (bytesToBits buf).drop (off + n) := by
+  unfold write64
+  simp only [show ¬ n > 64 by omega, if_false]
+  obtain ⟨buf', h1, h2, h3⟩ := write64Loop_spec v (n + 1) buf off n (by omega) h hn (fun _ => hv)
+  refine ⟨buf', h1, h2, ?_⟩
+  rw [h3, splice, toBitsBE_length]
 
 end Proofs.C01
